@@ -75,7 +75,28 @@ def base_jobs(tier, mm):
                     r["spot"] = rng.choice(prices)
         jobs.append({"country": c, "opts": {"method": None, "lang": mm[c]["langs"][0], "from": None, "to": None}, "inp": inp,
                      "window": "none", "kind": "base", "supported": True, "hashseed": 0, "dump": "full", "group": n + n_c + n_s + k})
+    # the machine's time zone: a lot and a later sale inside the hour that the clocks repeat when daylight saving ends in New York,
+    # London and Sydney (wall-clock order opposite to the order in time); all timestamps carry explicit offsets, so what the
+    # sale takes must not depend on TZ
+    n_z = 2 if tier == "quick" else 12
+    HOUR = 3600_000_000
+    DST_END = [1636264800_000000, 1635642000_000000, 1617465600_000000]       # 2021-11-07 06:00Z, 2021-10-31 01:00Z, 2021-04-03 16:00Z
+    for k in range(n_z):
+        c = ("us", "generic")[k % 2]
+        inp = l6.gen_input(rng, "plain", n_assets=rng.choice([1, 2]))
+        a = inp["assets"][0]
+        for z, t0 in enumerate(DST_END):
+            amt = (2 + z) * U
+            a["ins"].append({"ts": [t0 - HOUR // 2, 0], "exch": 0, "holder": 0, "type": "BUY", "spot": (70000 + 1000 * z) * U, "crypto_in": amt})
+            a["outs"].append({"ts": [t0 + HOUR // 6, 0], "exch": 0, "holder": 0, "type": "SELL", "spot": (71000 + 1000 * z) * U,
+                              "crypto_out_no_fee": amt // 2, "crypto_fee": 0})
+        jobs.append({"country": c, "opts": {"method": ("lifo", "hifo")[(k // 2) % 2], "lang": "en", "from": None, "to": None}, "inp": inp,
+                     "window": "none", "kind": "base", "supported": True, "hashseed": 0, "dump": "full", "group": n + n_c + n_s + n_p + k,
+                     "dst": True})
     return jobs, rng
+
+
+ZONES = ["America/New_York", "Europe/London", "Australia/Sydney", "Asia/Kolkata", "Pacific/Auckland"]
 
 
 def variants(job, rng, mm):
@@ -87,6 +108,12 @@ def variants(job, rng, mm):
         v = copy.deepcopy(job)
         v["kind"] = "hashseed"
         v["hashseed"] = hs
+        out.append(v)
+    # another time zone of the machine (TZ): one per job, all of them for the daylight-saving inputs
+    for z in (ZONES[:3] if job.get("dst") else [ZONES[job.get("group", 0) % len(ZONES)]]):
+        v = copy.deepcopy(job)
+        v["kind"] = "timezone"
+        v["env"] = dict(job.get("env") or {}, TZ=z)
         out.append(v)
     # dirty output directory
     v = copy.deepcopy(job)
@@ -245,7 +272,7 @@ def judge_groups(groups, out, mm, counts, nontrivial):
             # a failing base run is C16's business; it still must fail the same way every time
             for v in vs:
                 rv = next(it)
-                if v["kind"] in ("twice", "hashseed", "permuted") and (rv["rc"], sorted(reports(rv))) != (rb["rc"], sorted(reports(rb))):
+                if v["kind"] in ("twice", "hashseed", "timezone", "permuted") and (rv["rc"], sorted(reports(rv))) != (rb["rc"], sorted(reports(rb))):
                     out.violation(f"{c16.describe(b)}: failing run is not reproducible under `{v['kind']}`: exit {rb['rc']} files {sorted(reports(rb))} / "
                                   f"exit {rv['rc']} files {sorted(reports(rv))}", {"base": b, "variant": v}, tags={"kind=" + v["kind"]})
             continue
@@ -256,7 +283,7 @@ def judge_groups(groups, out, mm, counts, nontrivial):
             what, tags = None, {"kind=" + v["kind"]}
             if rv["rc"] != rb["rc"]:
                 what = f"exit status {rv['rc']} ({rv['err'].get('cls')}: {rv['err'].get('msg')}) instead of {rb['rc']}"
-            elif v["kind"] in ("twice", "hashseed", "stale-outdir", "permuted"):
+            elif v["kind"] in ("twice", "hashseed", "timezone", "stale-outdir", "permuted"):
                 what = compare_whole(rb, rv, raw=v["kind"] != "permuted")
                 if v["kind"] == "stale-outdir" and not what:
                     for fn, f in rv["files"].items():
@@ -282,6 +309,7 @@ def judge_groups(groups, out, mm, counts, nontrivial):
                 tags |= f3_tags(what, b)
             if what:
                 desc = {"twice": "second identical run", "hashseed": f"PYTHONHASHSEED={v.get('hashseed')}",
+                        "timezone": f"TZ={(v.get('env') or {}).get('TZ')}",
                         "stale-outdir": "run into an output directory holding stale reports and junk",
                         "permuted": "rows / tables / sheets permuted", "subset": f"-a {v['opts'].get('asset')} vs all assets",
                         "alone": f"{v.get('alone')} alone in file and configuration vs all assets"}[v["kind"]]
